@@ -48,7 +48,7 @@ def module_has_float(m):
 
 def e2_job(ctx, name, module, script, opts=(), harness_kw=None, backends=('z3',), unwind=70, timeout=None,
            group=None, extra_flags=(), sample=None, translator=None, extra_sources=(), ub_checks=False,
-           pad=None, wasm_bytes=None, witnesses=('end of script',), page=None, extra_defs=()):
+           pad=None, wasm_bytes=None, witnesses=('end of script',), page=None, extra_defs=(), validate_witness=False):
     """Returns Job, or a dict {'pre_violation': ...} when the translator itself fails."""
     d = ctx.dir('e2_' + name)
     wb = wasm_bytes if wasm_bytes is not None else wasmenc.encode(module, pad)
@@ -113,6 +113,8 @@ def e2_job(ctx, name, module, script, opts=(), harness_kw=None, backends=('z3',)
     smp.setdefault('w2c2_options', list(opts))
     smp.setdefault('wasm_hex', wb.hex() if len(wb) <= 160 else wb[:160].hex() + '...')
     smp.setdefault('script', script)
-    return Job(name, sources, incs=[os.path.join(REPO, 'w2c2'), d], defs=defs, flags=flags, backends=backends,
+    j = Job(name, sources, incs=[os.path.join(REPO, 'w2c2'), d], defs=defs, flags=flags, backends=backends,
                unwind=unwind, timeout=timeout, group=group or name, sample=smp, witnesses=witnesses, auto_check_files=acf, ignore_desc=ign,
                replay=dict(sources=sources, incs=[os.path.join(REPO, 'w2c2'), d], defs=defs, asan=ub_checks))
+    j.validate_witness = validate_witness
+    return j
